@@ -43,7 +43,7 @@ class C03(Check):
     level = "fault_enumeration"
     engine = "flosim"
     design_ref = "§6 C03"
-    cfg = cfg_with(p_period=0.35, p_inactive=0.3, nmain=(1, 4), nframes=(1, 5), naux=(0, 2), p_aux=0.3, p_caux=0.25, nslaves=(0, 1), p_fiat=0.3, p_bid=0.3, ticks=(4, 16), p_ctx_extra=0.1, p_poke=0.15)
+    cfg = cfg_with(p_period=0.35, p_inactive=0.3, nmain=(1, 4), nframes=(1, 5), naux=(0, 2), p_aux=0.3, p_caux=0.25, nslaves=(0, 1), p_fiat=0.3, p_bid=0.3, ticks=(4, 16), p_ctx_extra=0.1, p_poke=0.15, p_abort_end=0.5)
     rule = ("small generated multi-framer programs (nested frames, plain and conditional auxiliaries, slaves, stop / abort bids at "
             "drawn ticks, recorder actions in the enter and exit context of every frame); per program: one fault-free run (whose top-level sends, end tick and final sweep are compared with the reference interpreter), then "
             "one run per crash point = every recorded action execution (all when <= 40, else 40 spread evenly) x {exception, "
@@ -54,7 +54,7 @@ class C03(Check):
     assumptions = ["the tasker whose own action raised is not 'still scheduled': no abort and no exits are demanded for it",
                    "cut points are (tick, action) and the sleep between ticks, not arbitrary bytecode boundaries",
                    "slaves are not scheduled, so the sweep owes them nothing"]
-    required_probes = ["exception-reraised", "kbd-swallowed", "kbd-between-ticks", "swept-running-framer", "swept-nested", "crash-in-exit-action", "fault-free-termination-agrees"]
+    required_probes = ["exception-reraised", "kbd-swallowed", "kbd-between-ticks", "swept-running-framer", "swept-nested", "crash-in-exit-action", "fault-free-termination-agrees", "cut-with-nothing-else-scheduled"]
     quick_runs = 250
     thorough_runs = 12000
     shrink_fields = []
@@ -250,6 +250,8 @@ class C03(Check):
         if res.state.crashed_in and res.state.crashed_in[2].endswith(".exit"):
             out.probe("crash-in-exit-action")
         expect = [t for t in tasks if status[t] != ABORTED and t not in victim]
+        if not expect and victim:
+            out.probe("cut-with-nothing-else-scheduled")      # the tasker that was cut was the last one scheduled
         tail = impl[cut + 1:]
         # (iii) exactly one ABORT per expected tasker, nothing else sent at top level
         got = []
